@@ -1,11 +1,293 @@
 (** C07 -- trampolining preserves the guest, is idempotent, refuses what it cannot handle.
-    Statements over the rewrite model (Tramp/Rewrite.v) instantiated with the regenerated tables. *)
+    Statements over the rewrite model (Tramp/Rewrite.v) instantiated with the regenerated tables
+    ([tool = apply the_cfg], Tramp/RewriteInst.v) against the declarative specification
+    (Tramp/RewriteSpec.v, stated on the PUBLIC description of the ABI in Gen/AbiGen.v).
+    Proofs: Tramp/RewriteLists.v, RewriteWfProofs.v, RewriteOnce.v, RewriteProofs.v (generic in the
+    tables, for any [cfg] with [cfg_ok C = true]), RewriteInstProofs.v (the generated tables).
+    The model does not include the final wasmparser validation of the emitted module. *)
 From Coq Require Import NArith List String Bool.
-From SFV Require Import Abi.AbiTypes Tramp.RewriteTypes Tramp.Rewrite Tramp.RewriteSpec Tramp.RewriteInst.
+From SFV Require Import Abi.AbiTypes Tramp.RewriteTypes Tramp.Rewrite Tramp.RewriteSpec Tramp.RewriteInst Gen.AbiGen
+  Tramp.RewriteWf Tramp.RewriteWfProofs Tramp.RewriteProofs Tramp.RewriteInstProofs.
 Import ListNotations.
+Open Scope string_scope.
+Open Scope list_scope.
+Open Scope N_scope.
 
+(** ---- 1. the memory test *)
 Theorem C07_no_own_memory : forall (C : cfg) (m : module), own_mems m = [] -> apply C m = Ok m.
 Proof. intros C m H. unfold apply. rewrite H. reflexivity. Qed.
 
 Theorem C07_several_memories : forall (C : cfg) (m : module) a b r, own_mems m = a :: b :: r -> apply C m = Err EMultiMem.
 Proof. intros C m a b r H. unfold apply. rewrite H. reflexivity. Qed.
+
+(** ---- 0. the tables of the tool: conditions of the generic proofs, agreement with the public ABI *)
+Theorem C07_tables_ok : cfg_ok the_cfg = true /\ cfg_stable the_cfg = true.
+Proof. split; [exact the_cfg_ok | exact the_cfg_stable]. Qed.
+
+Theorem C07_tables_agree :
+  c_provider the_cfg = AbiGen.wat_module /\ c_prefix the_cfg = spec_prefix /\
+  (forall n, known_name the_cfg n = mem n (names AbiGen.wat_table) || mem n lowlevel) /\
+  (forall n, mem n (origs the_cfg) = mem n (names AbiGen.wat_table)) /\
+  (forall n, mem n (map s_orig (c_specs the_cfg)) = mem n string_carrying) /\
+  (forall k nw, lookup k (c_imports the_cfg) = Some nw ->
+     match spec_for the_cfg k with
+     | Some sp => mem k string_carrying = true /\ lookup k AbiGen.wat_table = Some (s_params sp, s_results sp)
+     | None => mem k string_carrying = false /\ nw = String.append "_" k
+     end).
+Proof.
+  exact (conj provider_agrees (conj prefix_agrees (conj known_agrees (conj origs_agree (conj specs_agree entry_fact))))).
+Qed.
+
+(** well-formedness is decidable ([wf_module m] is [wf_module_b m = true]), means what it should, and is kept *)
+Theorem C07_wf_meaning : forall m, wf_module m <-> wfP m.
+Proof. exact wf_module_iff. Qed.
+
+Theorem C07_wf_preserved : forall m m', wf_module m -> tool m = Ok m' -> wf_module m'.
+Proof. exact L_wf_preserved. Qed.
+
+(** ---- 2./3./4. refusals *)
+Theorem C07_unknown_name_rejected : forall m,
+  List.length (own_mems m) = 1%nat ->
+  existsb (unknown_name AbiGen.wat_module AbiGen.wat_table lowlevel) (imports m) = true -> exists e, tool m = Err e.
+Proof. exact L_unknown_name_rejected. Qed.
+
+Theorem C07_other_version_rejected : forall m,
+  List.length (own_mems m) = 1%nat ->
+  existsb (other_version AbiGen.wat_module spec_prefix) (imports m) = true -> exists e, tool m = Err e.
+Proof. exact L_other_version_rejected. Qed.
+
+Theorem C07_bad_signature_rejected : forall m,
+  wf_module m -> List.length (own_mems m) = 1%nat ->
+  existsb (bad_string_sig AbiGen.wat_module AbiGen.wat_table m) (imports m) = true -> exists e, tool m = Err e.
+Proof. exact L_bad_signature_rejected. Qed.
+
+(** ---- 5. accept / refuse exactly as the specification says *)
+Theorem C07_verdict : forall m,
+  wf_module m ->
+  match spec m with
+  | VUnchanged => tool m = Ok m
+  | VReject => exists e, tool m = Err e
+  | VAccept => exists m', tool m = Ok m'
+  | VEither => True
+  end.
+Proof. exact L_verdict. Qed.
+
+(** ---- 6. what is left alone *)
+Theorem C07_preserves : forall m m',
+  wf_module m -> tool m = Ok m' ->
+  rest m' = rest m /\ own_mems m' = own_mems m /\
+  filter (fun f => match f_kind f with FOwn => true | _ => false end) (funcs m') =
+  filter (fun f => match f_kind f with FOwn => true | _ => false end) (funcs m) /\
+  (forall f, In f (funcs m) -> exists f', In f' (funcs m') /\ f_id f' = f_id f /\ f_sig f' = f_sig f) /\
+  filter (fun i => negb (String.eqb (i_mod i) AbiGen.wat_module)) (imports m') =
+  filter (fun i => negb (String.eqb (i_mod i) AbiGen.wat_module)) (imports m).
+Proof. exact L_preserves. Qed.
+
+(** ---- 7. the import section afterwards *)
+Theorem C07_imports_as_prescribed : forall m m',
+  wf_module m -> spec m = VAccept -> tool m = Ok m' ->
+  exists added, imports m' = spec_imports m ++ added /\
+                Forall (fun i => i_mod i = AbiGen.wat_module /\ In (i_name i) lowlevel) added.
+Proof. exact L_imports_as_prescribed. Qed.
+
+(** ... the same for every successful run on a module with a memory (also when the verdict is VEither) *)
+Theorem C07_imports_as_prescribed_any : forall m m',
+  wf_module m -> own_mems m <> [] -> tool m = Ok m' ->
+  exists added, imports m' = spec_imports m ++ added /\
+                Forall (fun i => i_mod i = AbiGen.wat_module /\ In (i_name i) lowlevel) added.
+Proof. exact L_imports_general. Qed.
+
+(** ---- 8. no function import is left under a public API name *)
+Theorem C07_fully_trampolined : forall m m',
+  wf_module m -> own_mems m <> [] -> tool m = Ok m' ->
+  forall i, In i (imports m') -> i_mod i = AbiGen.wat_module -> is_func i = true ->
+            mem (i_name i) (names AbiGen.wat_table) = false.
+Proof. exact L_fully_trampolined. Qed.
+
+(** ---- 9. idempotence, outside the recorded finding F13 (an API name imported as a non-function) *)
+Theorem C07_idempotent : forall m m',
+  wf_module m -> existsb (kind_mismatch AbiGen.wat_module AbiGen.wat_table) (imports m) = false ->
+  tool m = Ok m' -> tool m' = Ok m'.
+Proof. exact L_idempotent. Qed.
+
+(** ---- the same, generic in the tables: for ANY tables with [cfg_ok C = true] (and, for idempotence,
+    [cfg_stable C = true]); [foreign C i] = "i is not in the provider namespace", [pres] = rest, own
+    memories, own functions and every function id with its type are kept (Tramp/RewriteWf.v) *)
+Theorem C07_generic_wf_preserved : forall C, cfg_ok C = true ->
+  forall m m', wfP m -> apply C m = Ok m' -> wfP m'.
+Proof. exact apply_wf. Qed.
+
+Theorem C07_generic_preserves : forall C, cfg_ok C = true ->
+  forall m m', wfP m -> apply C m = Ok m' ->
+  pres m m' /\ filter (foreign C) (imports m') = filter (foreign C) (imports m).
+Proof. exact apply_pres. Qed.
+
+Theorem C07_generic_shape : forall C, cfg_ok C = true ->
+  forall m m', wfP m -> apply C m = Ok m' ->
+  (own_mems m = [] /\ m' = m) \/
+  (exists x ai, own_mems m = [x] /\ existsb (unexpected C) (imports m) = false /\ existsb (unsupported C) (imports m) = false /\
+     imports m' = flat_map (t_all C (c_imports C)) (imports m) ++ ai /\ Forall (addable C) ai /\ wfP m' /\ pres m m').
+Proof. exact apply_shape. Qed.
+
+Theorem C07_generic_fully_trampolined : forall C, cfg_ok C = true ->
+  forall m m', wfP m -> own_mems m <> [] -> apply C m = Ok m' ->
+  forall i, In i (imports m') -> i_mod i = c_provider C -> is_func i = true -> ~ In (i_name i) (origs C).
+Proof. exact apply_trampolined. Qed.
+
+Theorem C07_generic_bad_signature : forall C, cfg_ok C = true ->
+  forall m x i sp, wfP m -> own_mems m = [x] -> In i (imports m) -> i_mod i = c_provider C -> is_func i = true ->
+  In (i_name i) (origs C) -> spec_for C (i_name i) = Some sp -> good_sig_b sp m i = false -> exists e, apply C m = Err e.
+Proof. exact apply_bad_sig. Qed.
+
+Theorem C07_generic_accepts : forall C, cfg_ok C = true ->
+  forall m x, wfP m -> own_mems m = [x] -> existsb (unexpected C) (imports m) = false ->
+  existsb (unsupported C) (imports m) = false -> ready_b C m = true -> exists m', apply C m = Ok m'.
+Proof. exact apply_accepts. Qed.
+
+Theorem C07_generic_idempotent : forall C, cfg_ok C = true -> cfg_stable C = true ->
+  forall m m', wfP m -> no_kind_mismatch_b C (imports m) = true -> apply C m = Ok m' -> apply C m' = Ok m'.
+Proof. exact apply_idem. Qed.
+
+(** ==== examples: the hypotheses are satisfiable *)
+Definition imp (md n : string) (k : ikind) : import := {| i_mod := md; i_name := n; i_kind := k |}.
+Definition fn (id : N) (s : sig) (k : fkind) : func := {| f_id := id; f_sig := s; f_kind := k |}.
+Definition API : string := AbiGen.wat_module.
+
+(** a guest with a foreign function import, a foreign global, scalar API imports (one of them twice),
+    string-carrying API imports (one of them twice), two functions of its own, one memory *)
+Definition ex_m : module :=
+  {| imports := [imp "env" "host_fn" (KFunc 0);
+                 imp API "shopify_function_input_get" (KFunc 1);
+                 imp API "shopify_function_input_read_utf8_str" (KFunc 2);
+                 imp API "shopify_function_input_get" (KFunc 3);
+                 imp API "shopify_function_output_new_utf8_str" (KFunc 4);
+                 imp API "shopify_function_input_get_obj_prop" (KFunc 5);
+                 imp "env" "g" (KOther 0);
+                 imp API "shopify_function_input_read_utf8_str" (KFunc 6)];
+     funcs := [fn 0 ([TI32], []) FImported; fn 1 ([], [TI64]) FImported; fn 2 ([TI32; TI32; TI32], []) FImported;
+               fn 3 ([], [TI64]) FImported; fn 4 ([TI32; TI32], [TI32]) FImported; fn 5 ([TI64; TI32; TI32], [TI64]) FImported;
+               fn 6 ([TI32; TI32; TI32], []) FImported; fn 7 ([], []) FOwn; fn 8 ([TI32], [TI32]) FOwn];
+     mems := [{| m_id := 0; m_imported := false |}]; next_func := 9; next_mem := 1; rest := 42 |}.
+
+Example C07_ex_accepted :
+  wf_module ex_m /\ List.length (own_mems ex_m) = 1%nat /\ own_mems ex_m <> [] /\ spec ex_m = VAccept /\
+  existsb (kind_mismatch AbiGen.wat_module AbiGen.wat_table) (imports ex_m) = false /\
+  exists m', tool ex_m = Ok m' /\
+    imports m' =
+      [imp "env" "host_fn" (KFunc 0); imp API "_shopify_function_input_get" (KFunc 1);
+       imp API "_shopify_function_input_get" (KFunc 3); imp "env" "g" (KOther 0)] ++
+      [imp API "_shopify_function_input_get_utf8_str_addr" (KFunc 9); imp API "memory" (KMem 1);
+       imp API "_shopify_function_input_get_utf8_str_addr" (KFunc 11); imp API "_shopify_function_input_get_obj_prop" (KFunc 12);
+       imp API "_shopify_function_alloc" (KFunc 13); imp API "_shopify_function_output_new_utf8_str" (KFunc 16)] /\
+    spec_imports ex_m =
+      [imp "env" "host_fn" (KFunc 0); imp API "_shopify_function_input_get" (KFunc 1);
+       imp API "_shopify_function_input_get" (KFunc 3); imp "env" "g" (KOther 0)] /\
+    wf_module m' /\ tool m' = Ok m'.
+Proof.
+  split; [vm_compute; reflexivity|]. split; [vm_compute; reflexivity|]. split; [vm_compute; discriminate|].
+  split; [vm_compute; reflexivity|]. split; [vm_compute; reflexivity|].
+  eexists. split; [vm_compute; reflexivity|]. split; [vm_compute; reflexivity|]. split; [vm_compute; reflexivity|].
+  split; vm_compute; reflexivity.
+Qed.
+
+(** the SECOND import of a string-carrying name has the wrong type *)
+Definition ex_bad_sig : module :=
+  {| imports := imports ex_m;
+     funcs := [fn 0 ([TI32], []) FImported; fn 1 ([], [TI64]) FImported; fn 2 ([TI32; TI32; TI32], []) FImported;
+               fn 3 ([], [TI64]) FImported; fn 4 ([TI32; TI32], [TI32]) FImported; fn 5 ([TI64; TI32; TI32], [TI64]) FImported;
+               fn 6 ([TI32; TI64; TI32], []) FImported; fn 7 ([], []) FOwn; fn 8 ([TI32], [TI32]) FOwn];
+     mems := mems ex_m; next_func := 9; next_mem := 1; rest := 42 |}.
+
+Example C07_ex_bad_signature :
+  wf_module ex_bad_sig /\ List.length (own_mems ex_bad_sig) = 1%nat /\
+  existsb (bad_string_sig AbiGen.wat_module AbiGen.wat_table ex_bad_sig) (imports ex_bad_sig) = true /\
+  spec ex_bad_sig = VReject /\ tool ex_bad_sig = Err (EParams "shopify_function_input_read_utf8_str").
+Proof.
+  split; [vm_compute; reflexivity|]. split; [vm_compute; reflexivity|]. split; [vm_compute; reflexivity|].
+  split; vm_compute; reflexivity.
+Qed.
+
+Definition ex_one (md n : string) : module :=
+  {| imports := [imp md n (KFunc 0)]; funcs := [fn 0 ([], [TI64]) FImported; fn 1 ([], []) FOwn];
+     mems := [{| m_id := 0; m_imported := false |}]; next_func := 2; next_mem := 1; rest := 7 |}.
+
+Example C07_ex_unknown_name :
+  wf_module (ex_one API "shopify_function_input_get_nothing") /\
+  List.length (own_mems (ex_one API "shopify_function_input_get_nothing")) = 1%nat /\
+  existsb (unknown_name AbiGen.wat_module AbiGen.wat_table lowlevel) (imports (ex_one API "shopify_function_input_get_nothing")) = true /\
+  tool (ex_one API "shopify_function_input_get_nothing") = Err (EUnexpected "shopify_function_input_get_nothing").
+Proof.
+  split; [vm_compute; reflexivity|]. split; [vm_compute; reflexivity|]. split; vm_compute; reflexivity.
+Qed.
+
+Example C07_ex_other_version :
+  List.length (own_mems (ex_one "shopify_function_v1" "shopify_function_input_get")) = 1%nat /\
+  existsb (other_version AbiGen.wat_module spec_prefix) (imports (ex_one "shopify_function_v1" "shopify_function_input_get")) = true /\
+  tool (ex_one "shopify_function_v1" "shopify_function_input_get") = Err (EUnsupported "shopify_function_v1").
+Proof. split; [vm_compute; reflexivity|]. split; vm_compute; reflexivity. Qed.
+
+Example C07_ex_unchanged :
+  wf_module {| imports := imports ex_m; funcs := funcs ex_m; mems := []; next_func := 9; next_mem := 0; rest := 1 |} /\
+  spec {| imports := imports ex_m; funcs := funcs ex_m; mems := []; next_func := 9; next_mem := 0; rest := 1 |} = VUnchanged.
+Proof. split; vm_compute; reflexivity. Qed.
+
+(** ==== refutations *)
+(** F13 (known finding): a function import and a non-function import of the same scalar API name.
+    The first run renames the function import and stops; the second run meets the global first. *)
+Definition ex_f13 : module :=
+  {| imports := [imp API "shopify_function_input_get" (KFunc 0); imp API "shopify_function_input_get" (KOther 1)];
+     funcs := [fn 0 ([], [TI64]) FImported; fn 1 ([], []) FOwn];
+     mems := [{| m_id := 0; m_imported := false |}]; next_func := 2; next_mem := 1; rest := 7 |}.
+
+Theorem C07_idempotent_refuted_kind_mismatch : exists m m', wf_module m /\ tool m = Ok m' /\ tool m' <> Ok m'.
+Proof.
+  exists ex_f13. eexists. split; [vm_compute; reflexivity|]. split; [vm_compute; reflexivity|].
+  vm_compute. discriminate.
+Qed.
+
+Example C07_ex_f13 : spec ex_f13 = VEither /\ exists m', tool ex_f13 = Ok m' /\ tool m' = Err ENotFunc.
+Proof. split; [vm_compute; reflexivity|]. eexists. split; vm_compute; reflexivity. Qed.
+
+(** the two repaired defects, on the tables as they were before the repair *)
+Definition cfg_first_only : cfg :=
+  {| c_provider := c_provider the_cfg; c_prefix := c_prefix the_cfg; c_imports := c_imports the_cfg;
+     c_extra := c_extra the_cfg; c_accept_new := c_accept_new the_cfg; c_skip_empty_new := c_skip_empty_new the_cfg;
+     c_specs := c_specs the_cfg; c_alloc := c_alloc the_cfg; c_pmem := c_pmem the_cfg;
+     c_loops := false |}.
+
+Definition cfg_empty : cfg :=
+  {| c_provider := c_provider the_cfg; c_prefix := c_prefix the_cfg; c_imports := c_imports the_cfg;
+     c_extra := c_extra the_cfg; c_accept_new := c_accept_new the_cfg; c_skip_empty_new := false;
+     c_specs := c_specs the_cfg; c_alloc := c_alloc the_cfg; c_pmem := c_pmem the_cfg;
+     c_loops := c_loops the_cfg |}.
+
+Definition ex_twice : module :=
+  {| imports := [imp API "shopify_function_input_get" (KFunc 0); imp API "shopify_function_input_get" (KFunc 1)];
+     funcs := [fn 0 ([], [TI64]) FImported; fn 1 ([], [TI64]) FImported; fn 2 ([], []) FOwn];
+     mems := [{| m_id := 0; m_imported := false |}]; next_func := 3; next_mem := 1; rest := 7 |}.
+
+(** handling only the first import of a name: the result still imports the public name, a second run changes it *)
+Theorem C07_first_only_refuted :
+  exists m m', wf_module m /\ apply cfg_first_only m = Ok m' /\ apply cfg_first_only m' <> Ok m'.
+Proof.
+  exists ex_twice. eexists. split; [vm_compute; reflexivity|]. split; [vm_compute; reflexivity|].
+  vm_compute. discriminate.
+Qed.
+
+Example C07_first_only_tables_not_ok : cfg_ok cfg_first_only = false.
+Proof. vm_compute. reflexivity. Qed.
+
+Example C07_ex_twice_repaired : exists m', tool ex_twice = Ok m' /\ tool m' = Ok m' /\
+  imports m' = [imp API "_shopify_function_input_get" (KFunc 0); imp API "_shopify_function_input_get" (KFunc 1)].
+Proof. eexists. split; [vm_compute; reflexivity|]. split; vm_compute; reflexivity. Qed.
+
+(** accepting the empty "new name" of IMPORTS: an import named "" in the API namespace passes *)
+Theorem C07_empty_name_refuted :
+  exists m m', wf_module m /\
+    existsb (unknown_name AbiGen.wat_module AbiGen.wat_table lowlevel) (imports m) = true /\ apply cfg_empty m = Ok m'.
+Proof.
+  exists (ex_one API ""). eexists. split; [vm_compute; reflexivity|]. split; vm_compute; reflexivity.
+Qed.
+
+Example C07_ex_empty_name_repaired : tool (ex_one API "") = Err (EUnexpected "").
+Proof. vm_compute. reflexivity. Qed.
